@@ -148,7 +148,7 @@ def run(prop, tier):
     r = rng(prop)
     with Scratch(prop) as wd:
         mc = tlc.model_check("MCRunner", "Runner_quick.cfg" if quick else "Runner_thorough.cfg", wd,
-                             timeout=280 if quick else 2400)
+                             timeout=600 if quick else 7200)
         rep.add_tlc(mc, "exhaustive: Runner.tla (call stack, batch pre-check, propagation, context) refines ProgSem/RunnerMon")
         common.tick("model check done")
         n = 180 if quick else 2500
